@@ -134,6 +134,60 @@ def d3(cx: Cx, ob: Ob) -> None:
         if self_call(c, me, "_merge"):
             if not any(g.kind == "guard" and g.a == ("param", "merge") and g.b is True for g in ctx.guards):
                 ob.violate(fn.qualname, where(fn, ev.line), "_merge is reachable without merge=True", witness=describe_path(ctx), detail="merge-guard")
+    # the same as a decision table over worlds (number of matching records, merge flag): whatever the nesting,
+    # merging or order of the tests, 0 matches append, 1 match merges iff merge is set (else ValueError), 2+ raise
+    import itertools
+
+    from ..rules import formula_eval, path_atoms
+
+    atoms = path_atoms(s.paths)
+
+    def meaning(a):
+        if a == matched:
+            return lambda n, mg: n > 0
+        if a == ("param", "merge"):
+            return lambda n, mg: mg
+        if op(a) == "cmp" and a[1] in ("==", "<", "<=", ">", ">=") and ((a[2] == lenm and is_const(a[3]) and isinstance(a[3][1], int)) or (a[3] == lenm and is_const(a[2]) and isinstance(a[2][1], int))):
+            import operator as _o
+
+            f = {"==": _o.eq, "<": _o.lt, "<=": _o.le, ">": _o.gt, ">=": _o.ge}[a[1]]
+            if a[2] == lenm:
+                k = a[3][1]
+                return lambda n, mg: f(n, k)
+            k = a[2][1]
+            return lambda n, mg: f(k, n)
+        return None
+
+    sem = {a: meaning(a) for a in atoms}
+    free = [a for a in atoms if sem[a] is None]
+    if len(free) <= 6:
+        seen_bad = set()
+        for n, mg in itertools.product((0, 1, 2, 3), (True, False)):
+            want = "append" if n == 0 else "raise" if (n >= 2 or not mg) else "merge"
+            for fv in itertools.product((True, False), repeat=len(free)):
+                asg = {a: sem[a](n, mg) for a in atoms if sem[a] is not None}
+                asg.update(dict(zip(free, fv)))
+                for p in s.paths:
+                    gs = [g for g in p.events if g.kind == "guard"]
+                    if not all(formula_eval(g.a, asg) == g.b for g in gs):
+                        continue
+                    appended = any(ev.kind == "expr" and op(ev.a) == "call" and op(ev.a[1]) == "attr" and ev.a[1][2] == "append" and ev.a[1][1] == ("attr", me, "records") for ev in p.events)
+                    merged = any(ev.kind in ("expr", "bind") and self_call(ev.a if ev.kind == "expr" else ev.b, me, "_merge") for ev in p.events)
+                    raised = p.out is not None and p.out[0] == "raise"
+                    got = "raise" if raised else "merge" if merged else "append" if appended else "nothing"
+                    if got == want or (want, got, n >= 2, mg) in seen_bad:
+                        continue
+                    seen_bad.add((want, got, n >= 2, mg))
+                    line = p.out[2] if p.out is not None and len(p.out) > 2 else (gs[-1].line if gs else fn.node.lineno)
+                    world = f"{'no' if n == 0 else 'one' if n == 1 else 'several'} matching record{'s' if n != 1 else ''}, merge={mg}"
+                    if want == "raise" and n >= 2:
+                        ob.violate(fn.qualname, where(fn, line), f"with {world} add_record does not raise ValueError (it {'merges into one of them' if got == 'merge' else 'appends' if got == 'append' else 'does nothing'}): a record bridging two existing records gives a name two owners", witness="records a and b, then add_record(Record(prefix='a', uri_prefix=<b's URI prefix>), merge=True)", detail="missing-raise")
+                    elif want == "raise":
+                        ob.violate(fn.qualname, where(fn, line), f"with {world} add_record does not raise ValueError (it {got}s)", detail="missing-raise")
+                    elif want == "append":
+                        ob.violate(fn.qualname, where(fn, line), f"with {world} add_record does not append the new record (outcome: {got})", detail="append-guard")
+                    else:
+                        ob.violate(fn.qualname, where(fn, line), f"with {world} add_record does not merge into the existing record (outcome: {got})", detail="merge-guard")
     # add_prefix
     ap = cx.fn(f"{CONV}.add_prefix", ob.id)
     sp = cx.summary(ap, ob.id)
